@@ -25,11 +25,26 @@ InstCases == { Lib("Nano", << Cell("top", << I("i0", "leaf", <<-7, 5>>, o[1], o[
 Dags == { Lib("Nano", Perm(<< Cell("top", << I("a", "mid", <<1, 2>>, FALSE, 90), I("b", "leaf", <<3, 4>>, TRUE, -1), I("c", "mid", <<5, 6>>, TRUE, 270) >>,
                                         << E(2, "Drawing", "rect", R1, 0, "") >>, <<>>),
                                    Cell("mid", << I("x", "leaf", <<0, 0>>, FALSE, 180) >>, <<>>, << [str |-> "m", at |-> <<0, 0>>] >>), Leaf >>, p)) : p \in Perms3 }
+    \* diamonds: the shared cell is reachable by paths of different length; both instance orders, every listing order
+    \cup { Lib("Nano", Perm(<< Cell("top", Perm(<< I("a", "mid", <<1, 2>>, FALSE, -1), I("b", "leaf", <<3, 4>>, FALSE, -1) >>, q), <<>>, <<>>),
+                              Cell("mid", << I("x", "leaf", <<0, 0>>, FALSE, -1) >>, <<>>, <<>>), Leaf >>, p))
+             : p \in Perms3, q \in { <<1, 2>>, <<2, 1>> } }
+    \* fan-out: a parent listed first / in the middle with four otherwise unrelated children
+    \cup { Lib("Nano", Perm(<< Cell("fan", << I("c", "k3", <<0, 0>>, FALSE, -1), I("a", "k1", <<5, 0>>, FALSE, -1), I("d", "k4", <<9, 0>>, TRUE, 90),
+                                              I("b", "k2", <<0, 7>>, FALSE, -1), I("c2", "k3", <<0, 9>>, FALSE, -1) >>, <<>>, <<>>),
+                              Cell("k1", <<>>, << E(1, "Drawing", "rect", R1, 0, "") >>, <<>>), Cell("k2", <<>>, << E(2, "Drawing", "rect", R1, 0, "") >>, <<>>),
+                              Cell("k3", <<>>, << E(1, "Pin", "rect", R1, 0, "") >>, <<>>), Cell("k4", <<>>, << E(2, "Pin", "rect", R1, 0, "") >>, <<>>) >>, p))
+             : p \in { <<1, 2, 3, 4, 5>>, <<5, 3, 1, 2, 4>>, <<2, 3, 4, 5, 1>> } }
     \cup { Lib("Micro", << Cell("d", << I("i", "c", <<0, 0>>, FALSE, -1) >>, <<>>, <<>>), Cell("c", << I("i", "b", <<0, 0>>, FALSE, -1) >>, <<>>, <<>>),
                           Cell("b", << I("i", "a", <<0, 0>>, FALSE, -1) >>, <<>>, <<>>), Cell("a", <<>>, << E(1, "Drawing", "rect", R1, 0, "") >>, <<>>) >>) }
 ShapeCases == { Lib(u, << Cell("s", <<>>, es, <<>>) >>) : u \in {"Micro", "Nano", "Angstrom"},
                   es \in { <<>>, << E(1, "Drawing", "rect", R2, 0, "") >>, << E(2, "Pin", "polygon", Pg, 0, "N") >>,
                            << E(1, "Pin", "path", Pa, 7, "p") >>,
+                           \* point lists that end where they start (a polygon closed explicitly, a ring drawn as one path),
+                           \* a triangle, a two-point path: every point is content
+                           << E(1, "Drawing", "polygon", << <<0, 0>>, <<10, 0>>, <<10, 10>>, <<0, 0>> >>, 0, "closed"),
+                              E(2, "Drawing", "path", << <<0, 0>>, <<9, 0>>, <<9, 9>>, <<0, 9>>, <<0, 0>> >>, 2, "ring"),
+                              E(2, "Pin", "polygon", << <<0, 0>>, <<7, 0>>, <<0, 5>> >>, 0, ""), E(1, "Pin", "path", << <<3, 3>>, <<3, 8>> >>, 0, "") >>,
                            << E(1, "Drawing", "rect", R1, 0, "a"), E(2, "Drawing", "rect", R1, 0, "b"), E(1, "Drawing", "rect", R2, 0, "c"),
                               E(1, "Pin", "path", Pa, 1, ""), E(2, "Drawing", "polygon", Pg, 0, "") >> } }
 LS(l, shapes) == [layer |-> l, shapes |-> shapes]
